@@ -268,7 +268,7 @@ var c06Hostile = func() []string {
 	for _, f := range c06Funcs {
 		h = append(h, "select "+f+"() where true", "select key where "+f+"()", "select "+f+"(key, key, key, key, key) where true", "select "+f+"(1) where true", "select "+f+"('a', 'b') where true",
 			"select "+f+"("+f+"(value)) where true", "select key, "+f+"(value) as f where true order by f", "select "+f+"(json(value)) where true", "select "+f+"(split(value, ',')) where true",
-			"select "+f+"(true) where true", "select "+f+"(value)['x'] where true", "select "+f+"(value)[0] where true", "select * where 'a' in "+f+"(value)", "select * where 1 in "+f+"(value)")
+			"select "+f+"(true) where true", "select "+f+"('a') where true", "select "+f+"('12') + "+f+"('a' + 'b') where true", "select key where "+f+"('a') = "+f+"(key)", "select "+f+"(value)['x'] where true", "select "+f+"(value)[0] where true", "select * where 'a' in "+f+"(value)", "select * where 1 in "+f+"(value)")
 	}
 	return h
 }()
@@ -394,6 +394,16 @@ var c06Shared = func() []string {
 			chain(n, "strlen(key)", "$+upper($)")+" where true",
 			chain(n, "float(value)", "l2_distance(list($,$), list($,$))")+" where true",
 			chain(n, "(key = 'k01')", "$ & $ | $")+" where "+last,
+		)
+		// the constant parameter of an aggregate given through a chain of names: evaluated once
+		// when the plan is built, outside any row
+		var names []string
+		for i := 0; i <= n; i++ {
+			names = append(names, fmt.Sprintf("a%d", i))
+		}
+		h = append(h,
+			chain(n, "0.5", "$*$")+", quantile(int(value), "+last+") as q where key ^= 'k' group by "+strings.Join(names, ", "),
+			chain(n, "'x'", "substr($+$, 0, 1)")+", group_concat(value, "+last+") as q where key ^= 'k' group by "+strings.Join(names, ", "),
 		)
 	}
 	return h
